@@ -47,8 +47,8 @@ type Env struct {
 	BodyFirst bool
 	Funcs     map[string]*FuncModel
 	DataType  types.Type
-	ImportT   types.Type                // imports.Import
-	Methods   map[string]*types.Const   // "Scope.IsShared" -> constant compared with
+	ImportT   types.Type              // imports.Import
+	Methods   map[string]*types.Const // "Scope.IsShared" -> constant compared with
 	Problems  []string
 	Actions   int
 }
